@@ -88,6 +88,11 @@ def _one(args):
                     wexp = [sum(Fraction(lam[key]) * sw[order[pos]][j] for j, key in enumerate(keys)) for pos in range(n)]
                     if any(not close(w[pos], wexp[pos]) for pos in range(n)):
                         out.append(({"api": "signed_weights", "kind": "linearity", **sig0}, f"signed_weights({dict(lam)}) = {w.tolist()} vs {[float(x) for x in wexp]}", detail))
+                    # the multiplier vector is indexed by the constraint labels: listing its entries in another order changes nothing
+                    if len(lam) > 1:
+                        w_rev = np.asarray(m.signed_weights(lam.iloc[::-1]), dtype=float)
+                        if not np.allclose(w_rev, w, atol=1e-12):
+                            out.append(({"api": "signed_weights", "kind": "label_alignment", **sig0}, "signed_weights depends on the ORDER in which the multiplier Series lists the constraints", detail))
                     h1 = np.array([rnd.randint(0, 8) / 8 for _ in range(n)])
                     h2 = np.array([rnd.randint(0, 8) / 8 for _ in range(n)])
                     g1 = m.gamma(M.vec_predictor(h1)); g2 = m.gamma(M.vec_predictor(h2))
@@ -153,6 +158,10 @@ def _one(args):
                 wexp = [lam[a] * n / cnt[a] for a in d["g"]]
                 if abs(lhs - rhs) > 1e-9 or any(abs(a - b) > 1e-9 for a, b in zip(w, wexp)):
                     out.append(({"api": "BoundedGroupLoss.signed_weights", "kind": "identity"}, f"lambda.gamma = {lhs}, (1/n) sum w loss = {rhs}, w = {w.tolist()} expected {wexp}", detail0))
+                if len(lam) > 1:
+                    w_rev = np.asarray(bgl.signed_weights(lam.iloc[::-1]), dtype=float)
+                    if not np.allclose(w_rev, w, atol=1e-12):
+                        out.append(({"api": "BoundedGroupLoss.signed_weights", "kind": "label_alignment"}, "signed_weights depends on the ORDER in which the multiplier Series lists the groups", detail0))
             for eo in case["err"]:
                 fp, fn_ = eo["costs"]
                 er = red.ErrorRate(costs={"fp": fp, "fn": fn_}); er.load_data(d["X"], np.array(d["y"]), sensitive_features=d["g"])
